@@ -113,7 +113,11 @@ class World(object):
                                       'tile_lock_dir': os.path.join(d, 'tlocks')}}}
         with open(self.conf, 'w') as f:
             yaml.safe_dump(conf, f)
-        self.good_seed = {'seeds': {'s': {'caches': ['c'], 'grids': ['g'], 'levels': [0], 'refresh_before': {'mtime': self.F}}}}
+        # a second task on the same cache (seed configurations usually hold several): it comes after the re-seeding task, has
+        # a refresh time of its own (long ago: it only fills what is missing) and finds nothing to do - the tile manager of
+        # the cache is shared by both tasks, each has to be walked with its own refresh time
+        self.good_seed = {'seeds': {'s': {'caches': ['c'], 'grids': ['g'], 'levels': [0], 'refresh_before': {'mtime': self.F}},
+                                    'zfill': {'caches': ['c'], 'grids': ['g'], 'levels': [0], 'refresh_before': {'time': '2000-01-01T00:00:00'}}}}
         self.bad_seed = {'seeds': {'s': {'caches': ['nocache'], 'grids': ['g'], 'levels': [0], 'refresh_before': {'mtime': self.F}}}}
 
     def close(self):
@@ -346,7 +350,7 @@ def run(ctx):
                               'recorded history is not a behaviour of Reseed.tla at event %d: %s (before: %s)' % (
                                   matched[i] + 1, json.dumps(e), json.dumps(t[matched[i] - 1]) if matched[i] else '-'), {'trace': t[:matched[i] + 1]})
     ctx.sample({'kind': 'recorded history', 'events': traces[0][:8]})
-    ctx.assumptions += ['one seed task over one level of four tiles with refresh_before: mtime of the reseed file; calls end at once, while the '
+    ctx.assumptions += ['one seed task over one level of four tiles with refresh_before: mtime of the reseed file (followed by a second task on the same cache with a refresh time long ago, which finds nothing to do); calls end at once, while the '
                         'configuration is loaded (broken seed.yaml), at a chosen hand-over (as --duration does) or at the end; the worker pool '
                         'creates the tiles in the calling process; the clock of the script is virtual (1000 s per tick, interval 3 ticks); '
                         'file time stamps written by the kernel clock are set to the virtual time of the call afterwards']
